@@ -17,14 +17,16 @@ CHECKS = {
              'deviations of every seed object (parsed corpus incl. nested values, every enum member, hand seeds) of '
              'all 363 concrete classes; per object: compose, parse_immutable consumes all, parse_exact_size, '
              'field-by-field equality. Domain = constructor-accepted values narrowed by the cited RFC rows of '
-             'mc/domain.py.',
+             'mc/domain.py.'
+             ' Plus two-history exploration: every one-field change of a nested object, top-level field or vector attribute reached by reconstruction and by in-place edit after a compose (must compose identically); and for every class with defaulted arguments the message constructed after an in-place edit of an earlier instance (fresh process per class). Default-constructed objects are seeds.',
         design='§5 C01'),
     'C02': dict(
         technique='exhaustive enumeration of bounded byte-mutation families on the real parsers',
         text='Every truncation, every single-byte substitution/deletion/insertion, all B5 pairs in the header '
              'region, all short strings and token sequences, over every seed of every parsable class (379 classes, '
              '3 entry points + extra parse functions): the call returns or raises a documented error. Bounded: '
-             'deviations <= 2 from a seed.',
+             'deviations <= 2 from a seed.'
+             ' Further families: one byte raised to 3f/40/7f/ff with 300 filler octets appended (two fillers), JSON member values replaced by 16 alternatives, every uint32-prefixed SSH algorithm/curve name replaced by every other member of its enumeration.',
         design='§5 C02'),
     'C03': dict(
         technique='exhaustive enumeration of bounded byte-mutation families + suffix families; multi-entry-point '
@@ -48,7 +50,8 @@ CHECKS = {
              'insertions, short strings, token sequences and cross-class seeds of every class, plus targeted '
              'non-canonical generators (54 date spellings x 5 classes, TXT partitions, all SCSV placements among <= 3 '
              'suites, all 2^16 DNSKEY flag words, MySQL words with <= 2 flipped bits): compose succeeds, is accepted '
-             'again in full, parses to an equal object and composes to the same bytes.',
+             'again in full, parses to an equal object and composes to the same bytes.'
+             ' Every corpus seed is re-checked under 3-4 non-UTC process time zones, and observed in a pristine interpreter of its own class versus 3 global parse orders over all classes (parse results must not depend on what was parsed before).',
         design='§5 C05'),
     'C06': dict(
         technique='exhaustive enumeration against an independent reference encoder (differential oracle), object '
@@ -68,7 +71,8 @@ CHECKS = {
              'every name-list of length <= 3 over a 6-name alphabet in each of the 10 positions and each pair of '
              'positions; keys, certificates (every option alone and in ordered pairs, principals 0-3, validity '
              'boundaries, serial boundaries), banner (420 forms) and DH/GEX/disconnect messages: compose == '
-             'reference, parse(reference) == fields.',
+             'reference, parse(reference) == fields.'
+             ' Certificates are also edited in place (after a compose) and compared with the equal certificate built by construction; every ECDSA algorithm name x curve identifier blob is parsed and re-composed.',
         design='§5 C07'),
     'C08': dict(
         technique='exhaustive enumeration of RDATA wire forms against an independent reference encoder and key-tag '
@@ -77,7 +81,8 @@ CHECKS = {
              'modulus bit lengths x 4 top-byte patterns, all 2^16 flag words, DSA T 0..8, ECDSA/GOST coordinate '
              'boundaries, Ed25519/Ed448; DS, RRSIG (all RR types, label/TTL/timestamp boundaries), MX, names (all '
              'label sequences <= 3), TXT partitions: parsed, reproduced bit-exactly, key_tag == RFC 4034 App. B over the '
-             'wire RDATA; object side: compose == reference.',
+             'wire RDATA; object side: compose == reference.'
+             ' Observe / edit in place / observe histories of key_tag and compose on every record seed.',
         design='§5 C08'),
     'C09': dict(
         technique='exhaustive enumeration of specification-level field spaces against an independent reference encoder',
@@ -85,7 +90,8 @@ CHECKS = {
              'sets, auth-plugin lengths; SSLRequest both layouts; TPKT; X.224 CR/CC; all RDP flag x protocol subsets; '
              'OpenVPN packet classes x ack arrays of every length 0..255; PostgreSQL; LDAP with every result code: the '
              'reference encoding parses to the TYPE on the wire with the encoded fields, and composing those fields '
-             'gives the reference bytes.',
+             'gives the reference bytes.'
+             ' Every self-delimiting PDU is parsed again with more data behind it; messages built with defaults are compared before and after an earlier instance was edited in place (fresh process per class).',
         design='§5 C09'),
     'C10': dict(
         technique='complete enumeration of code spaces through the real decoders and list containers',
@@ -94,7 +100,8 @@ CHECKS = {
              'with RFC 8701 classification, or InvalidValue); the 3-byte SSL 2.0 cipher-kind space (complete in the '
              'thorough tier); 27 IntEnum-typed wire fields substituted in place over their whole space; all members, '
              'case spellings and prefix pairs of 28 string-coded enumerations and 5 SSH name-lists; static no-alias '
-             'clause over every enumeration. Exact for the 1- and 2-byte spaces.',
+             'clause over every enumeration. Exact for the 1- and 2-byte spaces.'
+             ' Two-step histories: every ordered pair of code spaces in a fresh process; every suite code inside a client hello composed three times; every member name of the opaque string enumerations with one stray octet must not decode to the member.',
         design='§5 C10'),
     'C11': dict(
         technique='complete / boundary enumeration of primitive calls against int.to_bytes, under enumerated TZ '
@@ -112,7 +119,8 @@ CHECKS = {
              'same ArrayBase code): BFS over ~60 concrete sequence-interface events to depth 2-3 (4-5 for the toy '
              'classes, 1-3 from at-maximum / one-below-maximum vectors), states merged by (items, hidden size '
              'counter); per transition the result is compared with a plain list and the bounds, refused edits must '
-             'leave the state untouched and use a data-length error; per state compose/prefix/round-trip.',
+             'leave the state untouched and use a data-length error; per state compose/prefix/round-trip.'
+             ' Constructor aliasing (vector built from a list / from a vector, every event on either side); vectors with a 2^24-1 maximum approached with one stretched item and the smallest encodable item.',
         design='§5 C12'),
     'C13': dict(
         technique='explicit-state exploration of observer histories, buffer-event histories and '
@@ -123,7 +131,8 @@ CHECKS = {
              'must be unchanged whether the call returned or raised, results stable; all observers map the state to '
              'itself, so the one-state graph closes (thorough replays all sequences <= 2). (b) 3 entry points x '
              'buffer events (overwrite, reverse, extend, clear) per seed of every class, both directions. '
-             '(c) construct / mutate-in-place / construct histories for every class with defaulted arguments.',
+             '(c) construct / mutate-in-place / construct histories for every class with defaulted arguments.'
+             ' (d) observe with every value observer, edit in place (nested field, top-level field, vector event), observe again - answers must equal those of the equal object built by construction; (e) two parses of the same bytes: every in-place edit of one leaves the other unchanged. State equality tolerates private caches (constructor-argument values and library == decide).',
         design='§5 C13'),
     'C14': dict(
         technique='exhaustive enumeration of objects x process configurations (hash seeds, insertion orders, '
@@ -132,7 +141,8 @@ CHECKS = {
              'deep copy / equal parse-compose round trip / every insertion order of 2-4 element set and dict fields '
              'serialise identically; the same deterministic object list is serialised under PYTHONHASHSEED 0-3 '
              '(0-15 thorough) in separate processes and compared by digest; every ordered pair of a 48-object panel '
-             'is serialised in one process and compared with a fresh process.',
+             'is serialised in one process and compared with a fresh process.'
+             ' The whole object list is also serialised in 4 (9) different orders, one process each; container-type twins (dict / OrderedDict); serialise / edit in place / serialise histories.',
         design='§5 C14'),
     'C15': dict(
         technique='exhaustive enumeration of client hello wire forms against an independent JA3 reference',
@@ -140,7 +150,8 @@ CHECKS = {
              'every extension list of length 0-3 over 7 kinds (with duplicates) and absent, group and point-format '
              'lists of length 1-2 over 4 codes, every combination of two (thorough: three) deviating sections; '
              'ja3() == the published algorithm applied to the wire bytes by an independent reader, and unchanged by '
-             'compose+parse. Known findings are matched by deviation, not by input.',
+             'compose+parse. Known findings are matched by deviation, not by input.'
+             ' Pristine-interpreter histories: a 44-hello panel alone versus after the seeds of every single TLS class and after all of them in both orders.',
         design='§5 C15'),
     'C16': dict(
         technique='exhaustive enumeration of KEXINIT / key wire forms against reference digests',
@@ -148,7 +159,8 @@ CHECKS = {
              'HASSH reads and every pair of such lists: both HASSH values equal md5 over the wire name-lists; every '
              'key/certificate within 1-2 deviations of the seeds, RSA keys over boundary bit lengths: SHA-256/SHA-1/MD5 '
              'fingerprints and known_hosts equal digests/base64 of the reference-built blob; every accepted conformant '
-             'wire form (seeds + single-byte substitutions): fingerprints are digests of the wire bytes.',
+             'wire form (seeds + single-byte substitutions): fingerprints are digests of the wire bytes.'
+             ' Every ECDSA algorithm name x curve identifier blob; read / edit in place / read histories of HASSH and fingerprints.',
         design='§5 C16'),
     'C18': dict(
         technique='deviation-bounded exhaustive enumeration of RFC-insignificant spellings with a differential oracle',
@@ -157,13 +169,15 @@ CHECKS = {
              'TLSRPT, SPF): every spelling with <= 2 (thorough 3) variation rows applied at once, each row citing the RFC '
              'clause that makes it insignificant; NEL JSON member orders x whitespace; header blocks of <= 3 fields x '
              'name case x OWS against a 6-line reference splitter: parse(variant) == parse(canonical). Per-value cap '
-             'reported in the evidence.',
+             'reported in the evidence.'
+             ' Pristine-interpreter histories for every ordered pair of types (outcome of a spelling must not depend on which type was parsed before).',
         design='§5 C18'),
     'C17': dict(
         technique='exhaustive explicit-state enumeration (all pairs, triples, permutations) on the real class',
         text='Complete: every ordered pair and triple of all defined versions, every permutation of every '
              '3-subset through sorted/min/max, every rotation of the full list, set/dict membership. '
-             'The space is finite and fully enumerated, so the verdict is exact for the current member table.',
+             'The space is finite and fully enumerated, so the verdict is exact for the current member table.'
+             ' Pair clauses are also evaluated against an independently parsed equal instance of every version.',
         design='§5 C17'),
 }
 
